@@ -8,15 +8,19 @@ Property theorems only.  `Run.<machine> … pre k` is `runWithFaultAt`: the prot
 with `pre` older live blocks and the `k`-th allocation event failing, unwound, and every surviving
 object destroyed; `initialLive pre` is the live set before the call.
 
-* proved for every input and every `k`: the copy constructor and `operator=` of `CO_Tree`
-  (`init` + `copy_data_from`), `Dense_Row` copy / `resize`, `Swapping_Vector::push_back`, the
-  `Safe_Ptr`-guarded clone of a PIP solution tree, `MIP_Problem::add_constraint`;
-* the protocols that leak **as written** — `CO_Tree(Iterator, n)` and the constructors of
-  `MIP_Problem` that call `add_constraint_helper` from their body — have a `_fails` theorem on a
-  concrete witness, a `_partial` theorem under the exact side condition, an exact count of the
-  leaked blocks, and a `_guarded` theorem for the protocol with the missing handler;
-* `operator=` of `CO_Tree` never leaks but leaves the cached end iterators dangling when `init`
-  throws (`valid_cotree_assign_fails`).
+A machine without suffix follows the code with the repairs of `/verif/fixes/fix_c14_*.diff`; the
+`…AsWritten` machines are the historical witnesses of the code as it was found.
+
+* proved for every input and every `k` (full strength): the copy constructor and `operator=` of
+  `CO_Tree` (`init` + `copy_data_from`; `operator=` also leaves a valid tree), `CO_Tree(Iterator, n)`
+  with its handler, `Dense_Row` copy / `resize` / assignment from a sparse row (copy aside and
+  swap), `Swapping_Vector::push_back`, the `Safe_Ptr`-guarded clone of a PIP solution tree,
+  `MIP_Problem::add_constraint`, the `MIP_Problem` constructors with their handler;
+* historical witnesses (`_as_written_fails` on a concrete input, `_as_written_partial` under the
+  exact side condition, exact count of the leaked blocks): `CO_Tree(Iterator, n)` without handler,
+  the `MIP_Problem` constructors that call `add_constraint_helper` from their body, `CO_Tree::init`
+  leaving the cached end iterators dangling, `Dense_Row::operator=(const Sparse_Row&)` releasing
+  its vector twice.
 -/
 
 namespace C14
@@ -36,63 +40,73 @@ example : (Run.cotreeCopy [true, false, true, true] 3 3).thrown = true
     ∧ (Run.cotreeCopy [true, false, true, true] 3 3).live = [2, 1, 0] := by decide
 
 /-- `CO_Tree::operator=`: no leak and no bad free for every receiver, source and `k`. -/
-theorem no_leak_cotree_assign (m : Nat) (x : List Bool) (pre k : Nat) :
-    (Run.cotreeAssign m x pre k).live = initialLive pre ∧ (Run.cotreeAssign m x pre k).bad = 0 := by
-  have := cotreeAssign_clean m x (Tracks.ofStart pre k)
+theorem no_leak_cotree_assign_as_written (m : Nat) (x : List Bool) (pre k : Nat) :
+    (Run.cotreeAssignAsWritten m x pre k).live = initialLive pre ∧ (Run.cotreeAssignAsWritten m x pre k).bad = 0 := by
+  have := cotreeAssignAsWritten_clean m x (Tracks.ofStart pre k)
   exact ⟨this.live, this.bad⟩
 
-example : (Run.cotreeAssign 2 [true, true] 1 3).thrown = true ∧ (Run.cotreeAssign 2 [true, true] 1 3).live = [0] := by decide
+example : (Run.cotreeAssignAsWritten 2 [true, true] 1 3).thrown = true ∧ (Run.cotreeAssignAsWritten 2 [true, true] 1 3).live = [0] := by decide
 
-/-- …but when `init` throws, `refresh_cached_iterators()` is not reached: the now empty tree keeps
+/-- `CO_Tree::operator=` with the repaired `init` (fix_c14_cotree_init_cached_iterators): no leak,
+no bad free **and a valid tree** for every receiver, every source and every `k`. -/
+theorem no_leak_cotree_assign (m : Nat) (x : List Bool) (pre k : Nat) :
+    (Run.cotreeAssign m x pre k).live = initialLive pre ∧ (Run.cotreeAssign m x pre k).bad = 0
+      ∧ (Run.cotreeAssign m x pre k).valid = true := by
+  have := cotreeAssign_clean m x (Tracks.ofStart pre k)
+  exact ⟨this.live, this.bad, cotreeAssign_valid _ x _⟩
+
+example : (Run.cotreeAssign 1 [true] 0 0).thrown = true ∧ (Run.cotreeAssign 1 [true] 0 0).valid = true := by decide
+
+/-- Historical witness — as written, when `init` throws, `refresh_cached_iterators()` is not reached: the now empty tree keeps
 end iterators into the array `destroy()` has just released (`begin() != end()` on an empty tree). -/
-theorem valid_cotree_assign_fails : ¬ (∀ m x pre k, (Run.cotreeAssign m x pre k).valid = true) := by
+theorem valid_cotree_assign_as_written_fails : ¬ (∀ m x pre k, (Run.cotreeAssignAsWritten m x pre k).valid = true) := by
   intro h; have := h 1 [true] 0 0; revert this; decide
 
 /-- Validity holds when the receiver was the empty tree (its cached iterators are null already). -/
-theorem valid_cotree_assign_partial (x : List Bool) (pre k : Nat) :
-    (Run.cotreeAssign 0 x pre k).valid = true := by
-  unfold Run.cotreeAssign
+theorem valid_cotree_assign_as_written_partial (x : List Bool) (pre k : Nat) :
+    (Run.cotreeAssignAsWritten 0 x pre k).valid = true := by
+  unfold Run.cotreeAssignAsWritten
   simp only [buildTree, if_true]
-  exact cotreeAssign_valid_of_empty x _
+  exact cotreeAssignAsWritten_valid_of_empty x _
 
 /-- `CO_Tree(Iterator, n)` **leaks as written**: one element, the copy of that element fails
 (events 0 and 1 are the two arrays of `init`): both arrays stay allocated. -/
-theorem no_leak_cotree_iter_fails :
-    ¬ (∀ n pre k, (Run.cotreeIter n pre k).live = initialLive pre) := by
+theorem no_leak_cotree_iter_as_written_fails :
+    ¬ (∀ n pre k, (Run.cotreeIterAsWritten n pre k).live = initialLive pre) := by
   intro h; have := h 1 0 2; revert this; decide
 
 /-- Exactly: a fault in one of the `n` element copies leaks the two arrays and the `k - 2`
 elements built so far — `k` blocks. -/
-theorem cotree_iter_leaks_exactly (n pre k : Nat) (h2 : 2 ≤ k) (hk : k < n + 2) :
-    (Run.cotreeIter n pre k).thrown = true ∧ (Run.cotreeIter n pre k).live.length = pre + k
-      ∧ (Run.cotreeIter n pre k).bad = 0 :=
-  cotreeIter_leaks n pre k h2 hk
+theorem cotree_iter_as_written_leaks_exactly (n pre k : Nat) (h2 : 2 ≤ k) (hk : k < n + 2) :
+    (Run.cotreeIterAsWritten n pre k).thrown = true ∧ (Run.cotreeIterAsWritten n pre k).live.length = pre + k
+      ∧ (Run.cotreeIterAsWritten n pre k).bad = 0 :=
+  cotreeIterAsWritten_leaks n pre k h2 hk
 
 /-- Outside that window (`n = 0`, fault inside `init`, or no fault) the constructor is clean.
 Missing for the full statement: the fill loop has no handler (see `_guarded`). -/
-theorem no_leak_cotree_iter_partial (n pre k : Nat) (hside : n = 0 ∨ k < 2 ∨ n + 2 ≤ k) :
-    (Run.cotreeIter n pre k).live = initialLive pre ∧ (Run.cotreeIter n pre k).bad = 0 := by
+theorem no_leak_cotree_iter_as_written_partial (n pre k : Nat) (hside : n = 0 ∨ k < 2 ∨ n + 2 ≤ k) :
+    (Run.cotreeIterAsWritten n pre k).live = initialLive pre ∧ (Run.cotreeIterAsWritten n pre k).bad = 0 := by
   have t := Tracks.ofStart pre k
   by_cases hn : n = 0
   · subst hn
-    have := cotreeIter_clean_of_not_thrown 0 t (by simp [cotreeIter, Outcome.ofHeap])
+    have := cotreeIterAsWritten_clean_of_not_thrown 0 t (by simp [cotreeIterAsWritten, Outcome.ofHeap])
     exact ⟨this.live, this.bad⟩
   · rcases hside with h0 | hlt | hge
     · exact absurd h0 hn
-    · have := cotreeIter_clean_of_init_throws n t (cotInit_throws_lt2 n pre k hn hlt)
+    · have := cotreeIterAsWritten_clean_of_init_throws n t (cotInit_throws_lt2 n pre k hn hlt)
       exact ⟨this.live, this.bad⟩
-    · have := cotreeIter_clean_of_not_thrown n t (cotreeIter_not_thrown n pre k hge)
+    · have := cotreeIterAsWritten_clean_of_not_thrown n t (cotreeIterAsWritten_not_thrown n pre k hge)
       exact ⟨this.live, this.bad⟩
 
-example : (Run.cotreeIter 3 2 1).thrown = true ∧ (Run.cotreeIter 3 2 1).live = [1, 0] := by decide
+example : (Run.cotreeIterAsWritten 3 2 1).thrown = true ∧ (Run.cotreeIterAsWritten 3 2 1).live = [1, 0] := by decide
 
 /-- With the handler `copy_data_from` has, the same constructor is clean for every `n`, `k`. -/
-theorem no_leak_cotree_iter_guarded (n pre k : Nat) :
-    (Run.cotreeIterGuarded n pre k).live = initialLive pre ∧ (Run.cotreeIterGuarded n pre k).bad = 0 := by
-  have := cotreeIterGuarded_clean n (Tracks.ofStart pre k)
+theorem no_leak_cotree_iter (n pre k : Nat) :
+    (Run.cotreeIter n pre k).live = initialLive pre ∧ (Run.cotreeIter n pre k).bad = 0 := by
+  have := cotreeIter_clean n (Tracks.ofStart pre k)
   exact ⟨this.live, this.bad⟩
 
-example : (Run.cotreeIterGuarded 3 2 3).thrown = true ∧ (Run.cotreeIterGuarded 3 2 3).live = [1, 0] := by decide
+example : (Run.cotreeIter 3 2 3).thrown = true ∧ (Run.cotreeIter 3 2 3).live = [1, 0] := by decide
 
 /-! ## Dense_Row, Swapping_Vector -/
 
@@ -113,22 +127,32 @@ example : (Run.denseResize 2 2 6 1 2).thrown = true ∧ (Run.denseResize 2 2 6 1
 /-- `Dense_Row::operator=(const Sparse_Row&)`, reallocation branch, **frees twice as written**: the
 allocation of `init` fails (`k = 0`) after `destroy()` has released the vector without resetting the
 pointer; `~Impl()` releases it again. -/
-theorem no_double_free_dense_assign_sparse_fails :
-    ¬ (∀ m0 cap m pre k, (Run.denseAssignSparse m0 cap m pre k).bad = 0) := by
+theorem no_double_free_dense_assign_sparse_as_written_fails :
+    ¬ (∀ m0 cap m pre k, (Run.denseAssignSparseAsWritten m0 cap m pre k).bad = 0) := by
   intro h; have := h 3 3 12 0 0; revert this; decide
+
+/-- After fix_c14_dense_row_assign_sparse_double_free (`Dense_Row tmp(row); m_swap(tmp);`) the
+reallocation branch is clean at full strength. -/
+theorem no_double_free_dense_assign_sparse (m0 cap m pre k : Nat) :
+    (Run.denseAssignSparse m0 cap m pre k).live = initialLive pre ∧ (Run.denseAssignSparse m0 cap m pre k).bad = 0 := by
+  have := denseAssignSparse_clean m0 cap m (Tracks.ofStart pre k)
+  exact ⟨this.live, this.bad⟩
+
+example : (Run.denseAssignSparse 3 3 12 1 0).thrown = true ∧ (Run.denseAssignSparse 3 3 12 1 0).bad = 0
+    ∧ (Run.denseAssignSparse 3 3 12 1 0).live = [0] := by decide
 
 /-- …and is clean for every later fault position (and every shape of the two rows).  Missing for
 the full statement: `destroy()` should null `impl.vec` (or `init` should run before `destroy`). -/
-theorem no_double_free_dense_assign_sparse_partial (m0 cap m pre k : Nat) (hcap : cap ≠ 0) (hk : k ≠ 0) :
-    (Run.denseAssignSparse m0 cap m pre k).live = initialLive pre ∧ (Run.denseAssignSparse m0 cap m pre k).bad = 0 := by
-  have := denseAssignSparse_clean_of_alloc m0 cap m (Tracks.ofStart pre k) hcap (by
+theorem no_double_free_dense_assign_sparse_as_written_partial (m0 cap m pre k : Nat) (hcap : cap ≠ 0) (hk : k ≠ 0) :
+    (Run.denseAssignSparseAsWritten m0 cap m pre k).live = initialLive pre ∧ (Run.denseAssignSparseAsWritten m0 cap m pre k).bad = 0 := by
+  have := denseAssignSparseAsWritten_clean_of_alloc m0 cap m (Tracks.ofStart pre k) hcap (by
     intro h1 hcd _
     rw [alloc_ok (Or.inr (by rw [hcd]; simpa [Heap.start] using hk))]
     simp)
   exact ⟨this.live, this.bad⟩
 
-example : (Run.denseAssignSparse 3 3 12 1 0).thrown = true ∧ (Run.denseAssignSparse 3 3 12 1 0).bad = 1
-    ∧ (Run.denseAssignSparse 3 3 12 1 4).bad = 0 ∧ (Run.denseAssignSparse 3 3 12 1 4).live = [0] := by decide
+example : (Run.denseAssignSparseAsWritten 3 3 12 1 0).thrown = true ∧ (Run.denseAssignSparseAsWritten 3 3 12 1 0).bad = 1
+    ∧ (Run.denseAssignSparseAsWritten 3 3 12 1 4).bad = 0 ∧ (Run.denseAssignSparseAsWritten 3 3 12 1 4).live = [0] := by decide
 
 theorem no_leak_swapvec_push (m cap pre k : Nat) :
     (Run.svecPush m cap pre k).live = initialLive pre ∧ (Run.svecPush m cap pre k).bad = 0 := by
@@ -165,31 +189,39 @@ example : (Run.mipAdd 2 2 1 1).thrown = true ∧ (Run.mipAdd 2 2 1 1).live = [0]
 /-- `MIP_Problem(dim, cs, obj, mode)` **leaks as written**: the helper is called from the
 constructor body, so the constraints copied before the failing one are never deleted
 (two constraints; events: buffer, first copy, second copy — the second copy fails). -/
-theorem no_leak_mip_ctor_fails : ¬ (∀ n pre k, (Run.mipCtor n pre k).live = initialLive pre) := by
+theorem no_leak_mip_ctor_as_written_fails : ¬ (∀ n pre k, (Run.mipCtorAsWritten n pre k).live = initialLive pre) := by
   intro h; have := h 2 0 2; revert this; decide
 
 /-- The constructor is clean whenever it does not throw.  Missing for the full statement:
 `~MIP_Problem()` does not run for a throwing constructor and nothing else deletes the copies. -/
-theorem no_leak_mip_ctor_partial (n pre k : Nat) (hside : (Run.mipCtor n pre k).thrown = false) :
+theorem no_leak_mip_ctor_as_written_partial (n pre k : Nat) (hside : (Run.mipCtorAsWritten n pre k).thrown = false) :
+    (Run.mipCtorAsWritten n pre k).live = initialLive pre ∧ (Run.mipCtorAsWritten n pre k).bad = 0 := by
+  have := mipCtorAsWritten_clean_of_not_thrown n (Tracks.ofStart pre k) hside
+  exact ⟨this.live, this.bad⟩
+
+theorem no_leak_mip_ctor (n pre k : Nat) :
     (Run.mipCtor n pre k).live = initialLive pre ∧ (Run.mipCtor n pre k).bad = 0 := by
-  have := mipCtor_clean_of_not_thrown n (Tracks.ofStart pre k) hside
+  have := mipCtor_clean n (Tracks.ofStart pre k)
   exact ⟨this.live, this.bad⟩
 
-theorem no_leak_mip_ctor_guarded (n pre k : Nat) :
-    (Run.mipCtorGuarded n pre k).live = initialLive pre ∧ (Run.mipCtorGuarded n pre k).bad = 0 := by
-  have := mipCtorGuarded_clean n (Tracks.ofStart pre k)
+/-- The repaired copy constructor (fix_c14_mip_ctor_constraint_leak) is clean for every `n`, `k`. -/
+theorem no_leak_mip_copy (n pre k : Nat) :
+    (Run.mipCopy n pre k).live = initialLive pre ∧ (Run.mipCopy n pre k).bad = 0 := by
+  have := mipCopy_clean n (Tracks.ofStart pre k)
   exact ⟨this.live, this.bad⟩
 
-/-- The copy constructor has the same defect (one reservation, then `n` copies). -/
-theorem no_leak_mip_copy_fails : ¬ (∀ n pre k, (Run.mipCopy n pre k).live = initialLive pre) := by
+example : (Run.mipCopy 2 0 2).thrown = true ∧ (Run.mipCopy 2 0 2).live = [] := by decide
+
+/-- Historical witness — the copy constructor had the same defect (one reservation, then `n` copies). -/
+theorem no_leak_mip_copy_as_written_fails : ¬ (∀ n pre k, (Run.mipCopyAsWritten n pre k).live = initialLive pre) := by
   intro h; have := h 2 0 2; revert this; decide
 
-theorem no_leak_mip_copy_partial (n pre k : Nat) (hside : (Run.mipCopy n pre k).thrown = false) :
-    (Run.mipCopy n pre k).live = initialLive pre ∧ (Run.mipCopy n pre k).bad = 0 := by
-  have := mipCopy_clean_of_not_thrown n (Tracks.ofStart pre k) hside
+theorem no_leak_mip_copy_as_written_partial (n pre k : Nat) (hside : (Run.mipCopyAsWritten n pre k).thrown = false) :
+    (Run.mipCopyAsWritten n pre k).live = initialLive pre ∧ (Run.mipCopyAsWritten n pre k).bad = 0 := by
+  have := mipCopyAsWritten_clean_of_not_thrown n (Tracks.ofStart pre k) hside
   exact ⟨this.live, this.bad⟩
 
-example : (Run.mipCtor 3 1 9).thrown = false ∧ (Run.mipCtor 3 1 9).live = [0] := by decide
+example : (Run.mipCtorAsWritten 3 1 9).thrown = false ∧ (Run.mipCtorAsWritten 3 1 9).live = [0] := by decide
 
 /-! ## rejected calls -/
 
